@@ -37,8 +37,9 @@ func exists(lo, hi int, p func(i int) bool) bool {
 }
 
 // modifies designators: all(p) = every field of *p, elems(s) = the elements of slice/array/map s
-func all(x interface{}) bool   { return true }
-func elems(x interface{}) bool { return true }
+func all(x interface{}) bool     { return true }
+func elems(x interface{}) bool   { return true }
+func fieldof(x interface{}) bool { return true }
 
 // fresh(p) in a postcondition: p was allocated by this call
 func fresh(x interface{}) bool { return true }
@@ -166,7 +167,7 @@ func lemmaCRCStep(c uint32, b byte) bool {
 //@   ensures result0
 
 //@ func fnv1a
-//@   props C16
+//@   props C16 C15
 //@   ints bv
 //@   ensures h == utils.SpecFnv1a(data, len(data))
 //@   loop 1 invariant h == utils.SpecFnv1a(data, $index)
@@ -178,7 +179,7 @@ func lemmaCRCStep(c uint32, b byte) bool {
 //@   ensures h == specMurmur3(data)
 
 //@ func getKeyHashDefalut
-//@   props C16
+//@   props C16 C15
 //@   ints bv
 //@   ensures result0 == specKeyHash(key)
 
